@@ -1355,9 +1355,18 @@ pub fn run(tier: Tier, seed: u64) -> i32 {
         rep.machinery_error(&format!("reference decoder self-test failed: {e}"));
         return rep.finish();
     }
+    // The control container is built by the subject. If the (self-tested) independent decoder
+    // cannot read it, the subject's encoder is at fault: the control program is part of the
+    // explored space, so the exploration reports it as a violation; only if it does not is this a
+    // machinery error.
+    let mut control_bad: Option<String> = None;
     if let Err(e) = audit_negative_control(seed) {
-        rep.machinery_error(&format!("audit negative control failed: {e}"));
-        return rep.finish();
+        if e.starts_with("control ") {
+            control_bad = Some(e);
+        } else {
+            rep.machinery_error(&format!("audit negative control failed: {e}"));
+            return rep.finish();
+        }
     }
 
     let levels = tier_levels(tier);
@@ -1523,6 +1532,11 @@ pub fn run(tier: Tier, seed: u64) -> i32 {
             "vacuous enumeration: containers={} refused={} encrypted_chunks={} largest_chunk_count={}",
             tot.containers, tot.refused, tot.enc_chunks, tot.max_chunks
         ));
+    }
+    if let Some(e) = control_bad {
+        if rep.violation_count() == 0 {
+            rep.machinery_error(&format!("audit negative control failed ({e}) although the exploration found no violation"));
+        }
     }
     rep.finish()
 }
